@@ -51,6 +51,11 @@ func IMMSites() []Site {
 		{Tag: "T2 incdec x2.M++", Stmt: "x2.M++", Subj: SubjT2, Codes: i3},
 		{Tag: "T2 mut assign x2.F", Stmt: "x2.F = 1", Subj: SubjT2Mut, Codes: i1, Core: true},
 		{Tag: "T2 mut compound x2.F+=", Stmt: "x2.F += 1", Subj: SubjT2Mut, Codes: i2},
+		// the generic annotated type GT[V] (instantiated as GT[int])
+		{Tag: "generic assign gx.F", Stmt: "gx.F = 1", Subj: SubjT2, Codes: i1, Core: true},
+		{Tag: "generic compound gp.F+=", Stmt: "gp.F += 1", Subj: SubjT2, Codes: i2},
+		{Tag: "generic incdec gp.F++", Stmt: "gp.F++", Subj: SubjT2, Codes: i3},
+		{Tag: "generic mut assign gx.M", Stmt: "gx.M = 1", Subj: SubjT2Mut, Codes: i1, Core: true},
 		// reached without importing d in the file: through a helper function and an alias declared in a sibling file
 		{Tag: "noimport hp().F=1", Stmt: "hp().F = 1", Subj: SubjT, Codes: i1, OnlyInU: true, NoImport: true},
 		{Tag: "noimport hp().F+=1", Stmt: "hp().F += 1", Subj: SubjT, Codes: i2, OnlyInU: true, NoImport: true},
@@ -122,6 +127,12 @@ func CTORSites() []Site {
 		{Tag: "T2 lit T2{}", Stmt: "_ = {T2}{}", Subj: SubjT2, Codes: c1, Core: true, PkgLevel: "var $g = {T2}{}"},
 		{Tag: "T2 new(T2)", Stmt: "_ = new({T2})", Subj: SubjT2, Codes: c2},
 		{Tag: "T2 var v T2", Stmt: "var $v {T2}; _ = $v", Subj: SubjT2, Codes: c3},
+		{Tag: "generic lit GT[int]{}", Stmt: "_ = {GT}[int]{}", Subj: SubjT2, Codes: c1, Core: true, PkgLevel: "var $g = {GT}[int]{}"},
+		{Tag: "generic lit &GT[string]{}", Stmt: "_ = &{GT}[string]{}", Subj: SubjT2, Codes: c1},
+		{Tag: "generic elided []GT[int]{{}}", Stmt: "_ = []{GT}[int]{{}}", Subj: SubjT2, Codes: c1},
+		{Tag: "generic new(GT[int])", Stmt: "_ = new({GT}[int])", Subj: SubjT2, Codes: c2},
+		{Tag: "generic var v GT[int]", Stmt: "var $v {GT}[int]; _ = $v", Subj: SubjT2, Codes: c3},
+		{Tag: "generic call NewGT(1)", Stmt: "_ = {NewGT}(1)", Subj: SubjSilent},
 		// reached without importing d in the file
 		{Tag: "noimport LT{}", Stmt: "_ = LT{}", Subj: SubjT, Codes: c1, OnlyInU: true, NoImport: true},
 		{Tag: "noimport new(LT)", Stmt: "_ = new(LT)", Subj: SubjT, Codes: c2, OnlyInU: true, NoImport: true},
